@@ -89,6 +89,43 @@ def arch_hash(mod) -> str:
     return _h(json.dumps(parts))
 
 
+_LAYER_KEYS = ("hidden_size", "channel_size", "kernel_size", "stride_size", "num_layers", "num_blocks", "latent_dim", "activation",
+               "encoder_config", "head_config", "cnn_config", "mlp_config", "lstm_config", "init_dicts")
+
+
+def layer_cfg(mod):
+    """The part of a network's constructor description that architecture / activation mutations change (layers, nodes,
+    channels, kernels, blocks, latent width, hidden activation) -- without input / output sizes, so that an actor and the
+    critics trained alongside it can be compared: equal before a mutation => equal after it."""
+    def keep(x):
+        if isinstance(x, dict):
+            return {str(k): keep(v) for k, v in sorted(x.items(), key=lambda kv: str(kv[0])) if k in _LAYER_KEYS or not isinstance(k, str) or k not in _ALL_CFG_KEYS}
+        if isinstance(x, (list, tuple)):
+            return [keep(v) for v in x]
+        if hasattr(x, "__dataclass_fields__"):
+            return keep({k: getattr(x, k) for k in x.__dataclass_fields__})
+        if isinstance(x, np.integer):
+            return int(x)
+        if isinstance(x, np.floating):
+            return float(x)
+        return x if isinstance(x, (int, float, str, bool)) or x is None else repr(type(x).__name__)
+    try:
+        d = mod.init_dict
+    except Exception:                                            # noqa: BLE001
+        return None
+    return keep({k: v for k, v in d.items() if k in _LAYER_KEYS})
+
+
+# configuration keys that are NOT part of the layer configuration (sizes of inputs / outputs, bounds, switches)
+_ALL_CFG_KEYS = {"num_inputs", "num_outputs", "input_shape", "input_size", "observation_space", "action_space", "device", "name",
+                 "output_activation", "min_hidden_layers", "max_hidden_layers", "min_mlp_nodes", "max_mlp_nodes", "min_channel_size",
+                 "max_channel_size", "layer_norm", "output_layernorm", "output_vanish", "init_layers", "noisy", "noise_std", "new_gelu",
+                 "sample_input", "block_type", "support", "num_atoms", "n_agents", "min_latent_dim", "max_latent_dim", "vector_space_mlp",
+                 "min_layers", "max_layers", "min_blocks", "max_blocks", "scale_factor", "dropout", "rainbow", "arch", "random_seed",
+                 "squash_output", "action_std_init", "use_experimental_distribution", "clip_actions", "normalize_actions", "std_init",
+                 "encoder_cls", "encoder_name", "output_coeff", "std_coeff"}
+
+
 def opt_list(agent, name):
     w = getattr(agent, name)
     o = w.optimizer
@@ -103,7 +140,9 @@ def snapshot(agent, probe=None, greedy_fn=None):
     for e in evals:
         for nm in [e] + shared[e]:
             ms = _mods(agent, nm)
+            cfgs = [layer_cfg(m) for m in ms]
             nets[nm] = {"arch": _h(*[arch_hash(m) for m in ms]), "w": _h(*[w_hash(m) for m in ms]),
+                        "cfg": (_h(json.dumps(cfgs, sort_keys=True, default=str)) if all(c is not None for c in cfgs) else "nocfg:" + nm),
                         "n": len(ms), "empty": all(len(m.state_dict()) == 0 for m in ms)}
             for m in ms:
                 for t in all_tensors(m).values():
